@@ -295,6 +295,10 @@ def gen_cases(rec, rng, tier):
     if rec.shard == 1:
         for (name, RP, eps) in pdag.shipped_pdas(env.REPO):
             yield {'cls': 'shipped_' + name, 'ref': RP, 'n': 4, 'eps': eps}
+    # many no-op / replace moves: the push/pop normal form needs 11 and more intermediate states
+    for nt in ((11, 12, 13, 16, 20, 24) if thorough else (12, 13)):
+        if rec.shard % 2 == nt % 2:
+            yield {'cls': 'many_noop_and_replace_moves', 'ref': pdag.many_moves_pda(rng, nt), 'n': 3, 'eps': rng.choice(['', '_'])}
     for _ in range(600 if thorough else 70):
         gamma = rng.choice([None, None, '$X', '$@#', 'XY∅'[:rng.randint(1, 3)]])
         RP = pdag.random_pda(rng, rng.randint(1, 4), rng.randint(1, 2), rng.randint(0, 3), rng.randint(1, 8), gamma=gamma, p_eps=rng.choice([0.15, 0.35, 0.6]))
